@@ -67,13 +67,24 @@ def gen_dataset_spec(rng, cfg, dims_labels=None, nvars=None, names=None):
         vd = rng.sample(list(dims), k)
         dt = rng.choice(cfg["dtypes"])
         shape = [len(dims[d]) for d in vd]
-        vs.append({"name": nm, "dims": vd, "dtype": dt, "values": V.gen_values(rng, shape, dt, cfg["nan_rate"]),
-                   "attrs": gen_meta(rng, cfg["meta_density"])})
+        vals = V.gen_values(rng, shape, dt, cfg["nan_rate"])
+        attrs = gen_meta(rng, cfg["meta_density"])
+        if dt != "O" and rng.random() < 0.12:
+            attrs["missing_value"] = -99            # declared missing value: never occurs in this variable's own data
+        elif dt != "O" and shape and 0 not in shape and rng.random() < 0.12:
+            vals = _poke(vals, -99 if dt != "f8" else -99.0)   # ordinary data that happens to equal another variable's missing value
+        vs.append({"name": nm, "dims": vd, "dtype": dt, "values": vals, "attrs": attrs})
         for d in vd:
             if d not in used:
                 used.append(d)
     return {"dims": {d: dims[d] for d in used}, "axattrs": {d: gen_meta(rng, cfg["meta_density"] * 0.6) for d in used},
             "vars": vs, "attrs": gen_meta(rng, cfg["meta_density"])}
+
+
+def _poke(vals, x):
+    if isinstance(vals, list):
+        return [_poke(vals[0], x)] + vals[1:]
+    return x
 
 
 def var_array(vs, dims, axattrs=None):
@@ -143,6 +154,7 @@ class RefFile(object):
 
 def meta_equal(got, want):
     """Container-insensitive metadata equality (a list may come back as a 1-D array, [x] as x)."""
+    got = {k: v for k, v in got.items() if k != "_FillValue"}   # netCDF's own attribute, created from missing_value
     if set(map(str, got.keys())) != set(map(str, want.keys())):
         return False
     for k in want:
